@@ -67,6 +67,31 @@ CHECKS = {
              "character '0' could be registered) was repaired in /repo (e0e97b5) and is kept as a corpus case.",
         design="§5 C18", technique="Lean 4 proof (loop flattening, split/join round trip, dictionary-update "
                                    "characterisation) + differential correspondence with the four real builders"),
+    "C10": dict(
+        text="Lean 4 theorems over the integer model of create_grid_and_mask's mask (Model/Mask.lean: the eight "
+             "direction cases with their own loop ranges, the continue on the blocker's cell and the range check, "
+             "every ray comparison as an exact cross-multiplication): hidden1_iff_spec (for every range, offset and "
+             "cell the eight cases are the orientation-free documented rule hiddenSpec: not the blocker's cell, at "
+             "least as far along each non-zero direction, centre strictly between the rays through the two "
+             "outermost corners), mask_iff_exists_blocker (a cell is 0 iff some active blocking agent within range "
+             "has it in its shadow), nonblocking_inactive_ignored / out_of_range_ignored / blocker_on_viewer_ignored, "
+             "own_cell_visible / nearer_cells_visible / on_ray_visible, hidden_flip_rows / hidden_flip_cols / "
+             "hidden_transpose and mask_dihedral (the mask commutes with all eight symmetries of the square), "
+             "C10_model_satisfies_spec (the model's mask passes the judge specMask). Tie: the real function is run "
+             "on real Grid/GridWorldAgent layouts - every offset of one blocker at every range 0..8 (thorough "
+             "0..24), every viewer cell of every grid up to 6x6, all ordered pairs up to range 3 (5), sampled "
+             "triples and flag mixes with all dihedral images - every mask cell compared with the model's and "
+             "specMask evaluated by the driver on the implementation's mask; symmetry and flag filtering are also "
+             "tested directly on the real code.",
+        design="§5 C10", technique="Lean 4 proof (eight-case analysis by linear arithmetic over cross products, "
+                                   "dihedral invariance of the rule) + differential correspondence of the "
+                                   "hand-written integer model with the real create_grid_and_mask",
+        note=NOTE + " C10 specifically: the theorems are about the integer model. The float<->integer step - the real "
+             "code compares one correctly rounded IEEE-754 division (2*rd+-1)*t/(2*cd+-1) of exact small integers "
+             "with an integer, which coincides with the exact cross-multiplied comparison for every range < 2^25 "
+             "because an integral quotient is returned exactly and a non-integral one is at least 1/(2R+1) away "
+             "from every integer - is a paper argument (DESIGN.md §5 C10) supported by the exhaustive "
+             "correspondence (all offsets, all cells, ranges 0..24), not a Lean theorem."),
 }
 
 PENDING = {
